@@ -12,7 +12,7 @@ NOTE = ("Lean 4.33 kernel, axioms propext/Classical.choice/Quot.sound only (audi
 # id -> (claim text, DESIGN section, technique)
 claimed = {
  "C01": ("Lean theorems over the streaming-parser model: token-stream recursion = tree fold for every tree, option set and continuation; the fold equals the declarative conventions on the domain (one non-blank text run per element) up to map-entry order; model tied to xmlToMapParser by correspondence on generated documents under all option combinations and four entry points; conventions spec also evaluated directly against the implementation", "7 C01"),
- "C02": ("Lean theorems: compact encoder bytes = rendering of the encoder's tree (C02_marshal_eq_render), decoded Maps satisfy the `Decoded` invariant and are their own image, XML -> Map -> XML -> Map is a fixed point at tree level and - through the explicit tokenizer law TokLaw - at byte level, for the default options (C02_fixed_point_tree/_bytes) and for EVERY symmetric option pair: any attribute prefix and text key, case/snake folding, simple-values-as-map, keep-spaces, float/bool cast in any combination (C02_sym_fixed_point_tree/_bytes under the stated library laws LowerLaw/FloatLaw/FloatTextLaw, with witnesses that the excluded options break it); decoder-side escaping, the indented encoder and well-formedness are covered by the round-trip correspondence and oracles (compact bytes vs model, re-decode equality, token streams of indented vs compact, option histories through the toggle forms); one known finding (keep-spaces + indent)", "7 C02"),
+ "C02": ("Lean theorems: compact encoder bytes = rendering of the encoder's tree (C02_marshal_eq_render), decoded Maps satisfy the `Decoded` invariant and are their own image, XML -> Map -> XML -> Map is a fixed point at tree level and - through the tokenizer law TokLaw, which is proved for an executable tokenizer model (Model/Tokenizer.lean: C02_tok_law, C02_tok_law_raw, hypothesis-free corollaries C02_tok_fixed_point_bytes / C02_tok_sym_fixed_point_bytes / C02_tok_escdec_fixed_point_bytes) that is itself compared token by token with encoding/xml on every compact encoder output and on generated and damaged documents (op xtok) - at byte level, for the default options (C02_fixed_point_tree/_bytes) and for EVERY symmetric option pair: any attribute prefix and text key, case/snake folding, simple-values-as-map, keep-spaces, float/bool cast in any combination (C02_sym_fixed_point_tree/_bytes under the stated library laws LowerLaw/FloatLaw/FloatTextLaw, with witnesses that the excluded options break it); decoder-side escaping, the indented encoder and well-formedness are covered by the round-trip correspondence and oracles (compact bytes vs model, re-decode equality, token streams of indented vs compact, option histories through the toggle forms); one known finding (keep-spaces + indent)", "7 C02"),
  "C03": ("Lean theorems: for every well-formed JSON-shaped value the encoder's tree decodes (by the documented conventions) to exactly the declared image: scalars as text, lists as repeated siblings in order, attribute and text entries, empties as empty elements (C03_tree_preserves, C03_encode_preserves, C03_anyXml_preserves), encoding succeeds on the domain; compact bytes of Map.Xml / AnyXml compared with the model byte for byte, an independent image oracle in Go on both compact and indented output; for the indented encoder: same tree, and its layout token stream decodes to the image when prefix/indent are in the trim set (C03_indent_tree_preserves), bytes of Map.XmlIndent compared with the indent model byte for byte (xenci)", "7 C03"),
  "C04": ("Lean theorems over the sequence-codec model (sorting by pairwise distinct sequence numbers inverts any permutation, decoder numbering, stream decoding = tree fold, tree-level round trip on the domain) + correspondence of decode and encode + token-stream round-trip oracle through Xml, XmlIndent and BeautifyXml; indented sequence encoder modelled byte-exactly (xseqi): fails/panics exactly when the compact one does, its bytes minus layout are the compact bytes for every input, decode -> XmlIndent -> decode reproduces the decoded value for blank prefix/indent (C04_indent_*)", "7 C04"),
  "C06": ("Lean theorems: string-literal round trip for both escaping modes and every string, safe encoding never contains < > &, value and Map level round trip through the modelled JSON grammar, acceptance characterisation of NewMapJson; C06ExtIndent: the same round trip for Map.JsonIndent - the grammar skips the layout, so NewMapJson(JsonIndent(prefix, indent, safe)) is the normal form of the Map and equals the decoding of the compact output for every JSON-shaped Map, both encodings and every prefix/indent of JSON white space (C06_indent_roundtrip_exact, C06_indent_same_as_compact, value level C06_indent_value), the safe indented output has no raw < > & (C06_indent_safe_has_no_html), witness that a non-white-space prefix breaks it (C06_indent_ws_needed_witness); encoder bytes compared with the model and with encoding/json itself (same escaping), Map.JsonIndent(prefix, indent[, safe]) byte for byte with the model of json.Indent (op jenci: varied white-space prefixes/indents, empty containers, both encodings) and its bytes decoded by NewMapJson beside the model decoder, decoder compared with the model on generated and corrupted texts and with encoding/json's first value; one known finding (JSON null)", "7 C06"),
